@@ -1082,11 +1082,11 @@ package yqlib
 //@   loop 1:
 //@     invariant @position (el == nil && iter() == len(lhs.MatchingNodes)) || (el != nil && elList(el) == lhs.MatchingNodes && elIdx(el) == iter())
 //@     invariant @copied fresh(results.MatchingNodes) && len(results.MatchingNodes) == iter() && forall(k, 0, iter(), listAt(results.MatchingNodes, k) == listAt(lhs.MatchingNodes, k))
-//@     invariant nodeList(lhs.MatchingNodes) && nodeList(rhs.MatchingNodes) && lhs.MatchingNodes == prevEvalOut && rhs.MatchingNodes == lastEvalOut
+//@     invariant nodeList(lhs.MatchingNodes) && nodeList(rhs.MatchingNodes) && nodeList(results.MatchingNodes) && lhs.MatchingNodes == prevEvalOut && rhs.MatchingNodes == lastEvalOut
 //@   loop 2:
 //@     invariant @position (el == nil && iter() == len(rhs.MatchingNodes)) || (el != nil && elList(el) == rhs.MatchingNodes && elIdx(el) == iter())
 //@     invariant @copied fresh(results.MatchingNodes) && len(results.MatchingNodes) == len(lhs.MatchingNodes) + iter() && forall(k, 0, len(lhs.MatchingNodes), listAt(results.MatchingNodes, k) == listAt(lhs.MatchingNodes, k)) && forall(k, 0, iter(), listAt(results.MatchingNodes, len(lhs.MatchingNodes) + k) == listAt(rhs.MatchingNodes, k))
-//@     invariant nodeList(lhs.MatchingNodes) && nodeList(rhs.MatchingNodes) && lhs.MatchingNodes == prevEvalOut && rhs.MatchingNodes == lastEvalOut
+//@     invariant nodeList(lhs.MatchingNodes) && nodeList(rhs.MatchingNodes) && nodeList(results.MatchingNodes) && lhs.MatchingNodes == prevEvalOut && rhs.MatchingNodes == lastEvalOut
 
 //@ func (*Context).ToString
 //@   props C11
